@@ -1,5 +1,6 @@
 import ZV.Drv.C18
 import ZV.Model.C20
+import ZV.Drv.C20X
 /-! line protocol for C20:  `c20 u <schema> <p=tagstring> <hex>`  →  `<strict result>|<permissive result>`
     (each result as in `c18 u`: `ok <value> <len(rest)>` | `err`);
     `c20 tpc <u|g> <hex>` and `c20 tu time <p=tagstring> <hex>` → the same pair for the time content parsers /
@@ -31,6 +32,10 @@ def handle (args : List String) : String :=
          | .panic => "panic"
        sh (TimeField.parseTimeField false p bs) ++ "|" ++ sh (TimeField.parseTimeField true p bs)
      | _, _ => "bad-op")
+  | "xsch" :: _ => ZV.C20.X.handle args
+  | "xpk" :: _ => ZV.C20.X.handle args
+  | "xgn" :: _ => ZV.C20.X.handle args
+  | "xpc" :: _ => ZV.C20.X.handle args
   | _ => "bad-op"
 
 end ZV.C20
